@@ -56,6 +56,8 @@ type Scenario struct {
 	Keep   map[string]string // files restored before every run when UsesFS
 	Raw    bool              // record raw stdout instead of probes (C17 through the executor)
 	Spec   any
+	// BodyFn, when set, replaces the Executor body: it is run as thread 0 under the scheduler
+	BodyFn func(dir string, x *Exec, raw *RawWriter)
 }
 
 type Probe struct {
@@ -205,9 +207,13 @@ func (sc *Scenario) Runner(dir string) func(cfg vsched.Config) *Exec {
 		x := &Exec{Aux: map[string]string{}}
 		probe := &Probe{}
 		raw := &RawWriter{}
-		x.Res = vsched.Run(cfg, sc.Body(dir, x, probe, raw))
+		if sc.BodyFn != nil {
+			x.Res = vsched.Run(cfg, func() { sc.BodyFn(dir, x, raw) })
+		} else {
+			x.Res = vsched.Run(cfg, sc.Body(dir, x, probe, raw))
+		}
 		x.Trace = probe.Trace
-		if sc.Raw {
+		if sc.Raw || sc.BodyFn != nil {
 			for _, w := range raw.Writes {
 				x.Trace = append(x.Trace, Event{'W', w, 0})
 			}
